@@ -2,7 +2,7 @@
    Model: Util/Diff.v (lcs with prefix/suffix trimming, trace, Myers' middle snake with the shared buffer,
    chunk merging, LineDiff's hunks).  Only statements, examples and Print Assumptions here. *)
 From Coq Require Import List ZArith Bool.
-From TM Require Import Util.Diff Util.Diff_proofs.
+From TM Require Import Util.Diff Util.Diff_proofs Util.Diff_lcs Util.Diff_dist Util.Diff_greedy Util.Diff_min Util.Diff_myers.
 Import ListNotations.
 Local Open Scope Z_scope.
 
@@ -35,8 +35,57 @@ Proof. exact lcs_bound_attained. Qed.
 Theorem C27_quadratic_table_computes_L : forall a b, lcs_len a b = L a b.
 Proof. exact lcs_len_spec. Qed.
 
-(* NOT proved (partial): that the model of diff.lcs always attains the bound (Myers' theorem) and never
-   reaches the log.Fatal branches; both are checked on every generated pair instead. *)
+(* Minimality of the algorithm itself (Myers' theorem for this implementation): for EVERY pair of sequences,
+   whenever the model of diff.lcs (prefix/suffix trimming, trace, the real middle with the shared buffer
+   threaded through the recursion, chunk merging) returns a script, its cost is exactly |a|+|b|-2*LCS(a,b),
+   i.e. no valid script is cheaper (C27_no_script_is_cheaper_than_the_lcs_bound). *)
+Theorem C27_script_minimal :
+  forall a b chunks, lcs a b = LcsOk chunks -> cost chunks = zlen a + zlen b - 2 * L a b.
+Proof. exact script_minimal. Qed.
+
+Corollary C27_lcs_script_valid_and_minimal :
+  forall a b chunks, lcs a b = LcsOk chunks ->
+  script_ok chunks a b = true /\ forall chunks', script_ok chunks' a b = true -> cost chunks <= cost chunks'.
+Proof. exact lcs_valid_and_minimal. Qed.
+
+(* The middle-snake search: on inputs of length >= 2 with a large enough buffer, whatever snake the model of
+   middle (forward and reverse furthest-reaching passes over the windows of diagonals, overlap tests in the
+   shared buffer) returns splits the problem optimally, and the buffer keeps its length. *)
+Theorem C27_middle_snake_is_optimal : mid_optimal middle.
+Proof. exact middle_optimal. Qed.
+
+(* middle is total: on inputs of length >= 2 with a large enough buffer it always returns a snake, i.e. its
+   log.Fatal("no snake") branch is unreachable and the model's fuel suffices. *)
+Theorem C27_middle_always_finds_a_snake :
+  forall a b buf, 2 <= zlen a -> 2 <= zlen b -> 2 * (zlen a + zlen b + 2) <= zlen buf ->
+  exists ai bi s buf', middle a b buf = MidFound ai bi s buf'.
+Proof. exact middle_total. Qed.
+
+(* ... and minimality holds for trace/lcs with ANY optimally splitting middle-snake oracle. *)
+Theorem C27_lcs_minimal_for_any_optimal_middle :
+  forall mid a b chunks, mid_optimal mid -> lcs_gen mid a b = LcsOk chunks ->
+  cost chunks = zlen a + zlen b - 2 * L a b.
+Proof. exact lcs_gen_minimal. Qed.
+
+(* Myers' greedy lemma for this code: the value stored for diagonal k in round d (computed from the values of
+   round d-1 on diagonals k-1 / k+1 and the snake) is the furthest point on k at edit distance <= d. *)
+Theorem C27_forward_furthest_reaching :
+  forall a b d k vm vp, 0 <= d -> - d <= k <= d -> (d = 0 -> vp = 0) ->
+  (1 <= d -> - d < k -> Vf a b (d - 1) (k - 1) vm) ->
+  (1 <= d -> k < d -> Vf a b (d - 1) (k + 1) vp) ->
+  Vf a b d k (newx (zlen a) (zlen b) (condf a b) (S (length a + length b)) d k vm vp).
+Proof. exact Vf_update. Qed.
+
+(* L really is the length of a longest common subsequence (so the bound is the classical one). *)
+Theorem C27_L_is_longest_common_subsequence :
+  forall a b, (exists s, Sub s a /\ Sub s b /\ zlen s = L a b) /\
+              (forall s, Sub s a -> Sub s b -> zlen s <= L a b).
+Proof. exact L_is_lcs. Qed.
+
+(* Still NOT proved: totality of trace/lcs, i.e. that lcs never returns LcsFatal / LcsFuel.  middle always
+   finds a snake (above); missing is that its coordinates always pass trace's slice-bounds and
+   "no snake" (no-progress) checks, and trace's fuel arithmetic.  The check compares the model's result
+   (including these outcomes) with the implementation on every generated pair. *)
 
 (* The rendered diff is empty exactly when the texts are equal. *)
 Theorem C27_render_empty_iff_equal : forall a b, line_diff a b = None <-> a = b.
@@ -61,3 +110,10 @@ Print Assumptions C27_no_script_is_cheaper_than_the_lcs_bound.
 Print Assumptions C27_lcs_bound_is_attained.
 Print Assumptions C27_quadratic_table_computes_L.
 Print Assumptions C27_render_empty_iff_equal.
+Print Assumptions C27_script_minimal.
+Print Assumptions C27_lcs_script_valid_and_minimal.
+Print Assumptions C27_middle_snake_is_optimal.
+Print Assumptions C27_middle_always_finds_a_snake.
+Print Assumptions C27_lcs_minimal_for_any_optimal_middle.
+Print Assumptions C27_forward_furthest_reaching.
+Print Assumptions C27_L_is_longest_common_subsequence.
